@@ -23,3 +23,7 @@ Record storage_guards := {
   g_file_parent : bool;   (* file_path.parent != key_path -> raise *)
   g_delete_validates : bool;   (* LocalStorage.delete goes through _key_to_path *)
 }.
+
+(* cache.BaseCache.save: which file is written first; what happens when the save raises part-way *)
+Inductive save_order := MetaThenData | DataThenMeta | UnknownOrder.
+Inductive save_cleanup := CleanupDelete | NoCleanup | UnknownCleanup.
